@@ -114,7 +114,7 @@ claim("C10", "Symbolic raw sibling names go through the real make_safe_names_rou
       "normalisation, live tokenising regex) on blanks+name+blanks[+separator+blanks]: z3 shows every non-blank printed name resolves to exactly its item; a "
       "two-level path with symbolic separators (/ \\ \\\\), blanks and trailing separator resolves to the leaf; an arbitrary symbolic path string either resolves "
       "or raises ErrorInvalidPath and nothing else; rendering of solver-chosen item shapes yields one line per leaf; ls_action prints exactly the not-found "
-      "message." + E2E + "whole AKAI volumes / Roland performances / cue sheets whose sibling names are drawn by the solver from classes of awkward names (L/R look-alikes, dots, separators, blanks, duplicates) go through the real entry points; every printed row must resolve (5 spellings) to its own item, identified by a per-item header value, and corrupted paths must say not found.", ST + "; CrossHair for rendering, the ls action and the name images", "DESIGN.md 2/C10")
+      "message." + E2E + "whole AKAI volumes / Roland performances / cue sheets whose sibling names are drawn by the solver from classes of awkward names (L/R look-alikes, dots, separators, blanks, duplicates) go through the real entry points - as sample names and, one or two levels up, as Roland performance (also orphan) and AKAI / Roland volume names; every printed row must resolve (5 spellings) to its own item, identified by a per-item header value, and corrupted paths must say not found.", ST + "; CrossHair for rendering, the ls action and the name images", "DESIGN.md 2/C10")
 
 claim("C17", "Each live line regex is compiled to a z3 formula and shown to match a line with symbolic keyword casing and symbolic blank characters (run lengths "
       "enumerated) with the canonical line's groups, and lines starting with any other keyword to match none; an AST check shows cuesheet.py touches a line only "
